@@ -69,7 +69,7 @@ func runParseTask(t *gen.Tools, sw *sweeper, r *ev.Run, prop, tier, mode string,
 	byItem := map[string]*corp.Item{}
 	for _, it := range c.Items {
 		byItem[it.ID] = it
-		if !it.GenOK {
+		if !it.GenOK && !skipNotCompiling(it) {
 			ev.Inconsistent("generation with recording actions failed (exit %d): %s\n%s", it.Exit, it.Stdout, it.Text)
 		}
 	}
